@@ -154,11 +154,11 @@ def permRels : List Gen.Toast.Rel :=
       let extra : List Entry := (orows.map fun r => ({ row := r } : Entry))
       let all := (extra.take 1) ++ es.take 1 ++ [dead] ++ es.drop 1 ++ extra.drop 1
       let lay : Layout := if i % 2 == 0 then [all] else [all.take 2, all.drop 2]
-      ⟨[v, other], lay⟩
+      { vals := [v, other], lay }
 
 /-- boundary relations: 1-byte value, PostgreSQL's chunk size and its neighbours, small compressed values -/
 def boundaryRels : List Gen.Toast.Rel :=
-  let one (v : ToastValue) : Gen.Toast.Rel := ⟨[v], [(chunkRows v).map fun r => ({ row := r } : Entry)]⟩
+  let one (v : ToastValue) : Gen.Toast.Rel := { vals := [v], lay := [(chunkRows v).map fun r => ({ row := r } : Entry)] }
   let paged (v : ToastValue) : Gen.Toast.Rel :=
     -- four 1996-byte chunks per page, as PostgreSQL lays them out
     let es := (chunkRows v).map fun r => ({ row := r } : Entry)
@@ -166,7 +166,7 @@ def boundaryRels : List Gen.Toast.Rel :=
       match f with
       | 0 => []
       | f+1 => if es.isEmpty then [] else es.take 4 :: go f (es.drop 4)
-    ⟨[v], go (es.length + 1) es⟩
+    { vals := [v], lay := go (es.length + 1) es }
   let pg : List Pglz.Tok := [.lit 0x61, .lit 0x62, .lit 0x63, .mat 3 30, .mat 1 273, .lit 0x7A, .mat 2 18, .mat 300 17]
   let lz : Lz4.Block := ⟨[⟨[0x61, 0x62, 0x63], 3, 30⟩, ⟨[], 1, 300⟩, ⟨seqBytes 20 3, 20, 19⟩], [1, 2, 3, 4, 5]⟩
   [ one (mkVal 1 (.plain [0x41]) [1]),
@@ -180,11 +180,67 @@ def boundaryRels : List Gen.Toast.Rel :=
     one (mkVal 9 (.pglz pg) [4, 1, (Content.pglz pg).stored.length - 5]),
     one (mkVal 10 (.lz4 lz) [(Content.lz4 lz).stored.length]),
     one (mkVal 11 (.lz4 lz) [3, 2, (Content.lz4 lz).stored.length - 5]),
-    ⟨[mkVal 12 (.plain [1, 2, 3]) [3]], []⟩,                      -- pointer into an empty relation
-    ⟨[mkVal 13 (.plain [1, 2, 3]) [1, 2]], [[{ row := { id := 13, seq := 1, data := [2, 3], short := true } },
-                                             { row := { id := 13, seq := 0, data := [1], short := true } }]]⟩ ]
+    { vals := [mkVal 12 (.plain [1, 2, 3]) [3]], lay := [] },                      -- pointer into an empty relation
+    { vals := [mkVal 13 (.plain [1, 2, 3]) [1, 2]],
+      lay := [[{ row := { id := 13, seq := 1, data := [2, 3], short := true } },
+               { row := { id := 13, seq := 0, data := [1], short := true } }]] } ]
 
-def fixedRels : List Gen.Toast.Rel := boundaryRels ++ permRels
+/-- pages as deletes + VACUUM leave them (`Spec.Toast.Hole`): LP_UNUSED / LP_DEAD / LP_REDIRECT pointers before, between
+and behind the NORMAL pointers of the chunks.  The value has 3 chunks (or 5, 1996 bytes each, over two pages); a foreign
+value's chunk shares the page. -/
+def holeRels : List Gen.Toast.Rel :=
+  let v := mkVal 91 (.plain (seqBytes 9 3)) [4, 3, 2]
+  let other := mkVal 92 (.plain [0xEE, 0xEF]) [2]
+  let ent (r : Row) : Entry := { row := r }
+  let c := (chunkRows v).map ent
+  let o := (chunkRows other).map ent
+  let c0 := c.getD 0 default
+  let c1 := c.getD 1 default
+  let c2 := c.getD 2 default
+  let o0 := o.getD 0 default
+  let U := Hole.unused
+  let D := Hole.dead
+  let R := Hole.redirect
+  let stale (e : Entry) : Hole := Hole.deadStored { e with row := { e.row with data := [0xDE, 0xAD, 0xBE] }, infomask := 0x0A02, xmin := 650 }
+  let staleLive (e : Entry) : Hole := Hole.deadStored { e with row := { e.row with data := [0xDE, 0xAD, 0xBE] } }
+  let mk (lay : Layout) (holes : List Holes) : Gen.Toast.Rel := { vals := [v, other], lay, holes }
+  let big := mkVal 93 (.plain (seqBytes 9980 5)) [1996, 1996, 1996, 1996, 1996]
+  let b := (chunkRows big).map ent
+  [ -- hole in slot 1 of 3: N U N
+    { vals := [mkVal 90 (.plain [1, 2, 3]) [1, 2]],
+      lay := [[ent { id := 90, seq := 0, data := [1] }, ent { id := 90, seq := 1, data := [2, 3] }]], holes := [[[], [U]]] },
+    mk [[c0, c1, c2, o0]] [[[], [U]]],
+    -- hole in slot 0: U N N N N
+    mk [[c0, c1, c2, o0]] [[[U]]],
+    -- holes at both ends
+    mk [[c0, c1, c2, o0]] [[[U], [], [], [], [U]]],
+    mk [[c2, o0, c1, c0]] [[[U, U], [], [], [], [U, U, U]]],
+    -- two consecutive holes in the middle
+    mk [[c0, c1, c2, o0]] [[[], [U, U]]],
+    mk [[c0, c1, c2, o0]] [[[], [], [U, U], [U]]],
+    -- a hole in front of every pointer and behind the last
+    mk [[c2, c0, o0, c1]] [[[U], [U], [U], [U], [U]]],
+    -- LP_DEAD without storage in the middle / at the ends
+    mk [[c0, c1, c2, o0]] [[[], [D]]],
+    mk [[c0, c1, c2, o0]] [[[D], [], [D, D], [], [D]]],
+    -- LP_DEAD WITH storage between chunks of one value: a stale version of the next chunk (aborted / live-looking header)
+    mk [[c0, c1, c2, o0]] [[[], [stale c1]]],
+    mk [[c0, c1, c2, o0]] [[[], [staleLive c1], [staleLive c2]]],
+    mk [[c0, c1, c2, o0]] [[[stale c0], [], [], [], [staleLive c0]]],
+    -- LP_REDIRECT in front of a chunk (lp_off = a pointer number; 2 names the chunk behind it)
+    mk [[c0, c1, c2, o0]] [[[R 2]]],
+    mk [[c0, c1, c2, o0]] [[[], [R 3], [R 1]]],
+    -- every kind on one page, chunks in reverse order
+    mk [[c2, c1, o0, c0]] [[[U, D], [R 4, U], [stale c1], [U], [D, U]]],
+    -- two pages, holes on both; a page with nothing but unused pointers in front
+    mk [[c0, o0], [c1, c2]] [[[U], [U]], [[], [U, D]]],
+    mk [[], [c0, c1, c2, o0]] [[[U, U, U]], [[], [], [U]]],
+    mk [[c0], [], [c1, o0, c2]] [[[], [D]], [[U]], [[U], [], [U, U]]],
+    -- PostgreSQL-sized chunks: four per page, the page that lost its first two items to VACUUM
+    { vals := [big], lay := [b.take 4, b.drop 4], holes := [[[], [U], [U]], [[U, U]]] },
+    { vals := [big], lay := [b.drop 3, b.take 3], holes := [[[U, D], [], [U]], [[], [], [staleLive (b.getD 1 default)]]] } ]
+
+def fixedRels : List Gen.Toast.Rel := boundaryRels ++ permRels ++ holeRels
 
 def contentTag : Content → String
   | .plain _ => "plain" | .pglz _ => "pglz" | .lz4 _ => "lz4"
@@ -193,9 +249,17 @@ def sizeTag (n : Nat) : String :=
   if n ≤ 1 then "len=1" else if n < 1996 then "len<1996" else if n ≤ 8192 then "len<=8K"
   else if n ≤ 65536 then "len<=64K" else "len>64K"
 
+/-- `holes=`: are there non-NORMAL pointers; `midunused=1`: an LP_UNUSED pointer with a NORMAL one behind it on its page;
+`pagewf=0` would say that a generated page violates `Spec.Page.WF` / `pageFitsH` (the hypotheses of `C08_reassemble_heap`) -/
+def holeTags (rel : Gen.Toast.Rel) : List String :=
+  let wf := (rel.lay.zipIdx.all fun (pg, i) =>
+    decide (pageFitsH pg (rel.holes.getD i [])) && decide (toastPageH pg (rel.holes.getD i [])).WF)
+  [if rel.hasHoles then "holes=1" else "holes=0"] ++ (if rel.midUnused then ["midunused=1"] else []) ++
+    (if wf then [] else ["pagewf=0"])
+
 def relCase (rel : Gen.Toast.Rel) (mode : Nat) : Case :=
   let relid := (rel.vals.head?.map (·.relid)).getD 16385
-  let file := encToastRel rel.lay
+  let file := rel.file
   let ptrs := rel.vals.flatMap fun v => encExtPtr (ptrOf v)
   let stored (v : ToastValue) : Bool := !(rel.lay.liveRows.filter fun r => r.id == v.id).isEmpty
   -- a value with no live chunk in the relation (empty relation): nothing to return
@@ -206,13 +270,13 @@ def relCase (rel : Gen.Toast.Rel) (mode : Nat) : Case :=
                s!"vals={if rel.vals.length ≤ 1 then "1" else if rel.vals.length ≤ 5 then "2..5" else "6..50"}",
                sizeTag maxLen, s!"chunks={if nChunks ≤ 1 then "1" else if nChunks ≤ 5 then "2..5" else if nChunks ≤ 40 then "6..40" else ">40"}"] ++
               (rel.vals.map fun v => contentTag v.content).eraseDups ++
-              (if rel.lay.flatten.any (fun e => !e.live) then ["dead=1"] else []) ++ ["nt"]
+              (if rel.lay.flatten.any (fun e => !e.live) then ["dead=1"] else []) ++ holeTags rel ++ ["nt"]
   { tags, model := relModel mode relid file ptrs, spec,
     args := [toString mode, toString relid, hexRle file, hexRle ptrs] }
 
 def toastrelGen (seed idx size : Nat) : Case :=
   let rel := if idx < fixedRels.length then fixedRels.getD idx default
-             else (Gen.Toast.genRel size).run' (Prng.ofSeed seed idx)
+             else (Gen.Toast.genRelH size).run' (Prng.ofSeed seed idx)
   relCase rel (idx % 3)
 
 def toastrel : Family := { name := "toastrel", gen := toastrelGen, eval := toastrelEval, fixed := fixedRels.length }
@@ -260,8 +324,8 @@ def rel2Case (a b : Gen.Toast.Rel) (mode : Nat) : Case :=
   let bvals := b.vals.map fun v => { v with id := newId v.id, relid := relB }
   let blay : Layout := b.lay.map fun pg => pg.map fun e => { e with row := { e.row with id := newId e.row.id } }
   let avals := a.vals.map fun v => { v with relid := relA }
-  let fileA := encToastRel a.lay
-  let fileB := encToastRel blay
+  let fileA := a.file
+  let fileB := encToastRelH blay b.holes
   let pa := avals.flatMap fun v => encExtPtr (ptrOf v)
   let pb := bvals.flatMap fun v => encExtPtr (ptrOf v)
   let ptrs := pa ++ pb ++ pa
@@ -270,7 +334,9 @@ def rel2Case (a b : Gen.Toast.Rel) (mode : Nat) : Case :=
   let spec := joinWith ";" (avals.map (sv a.lay) ++ bvals.map (sv blay) ++ avals.map (sv a.lay))
   let shared := (bvals.filter fun v => idsA.contains v.id).length
   let tags := [s!"mode={mode}", s!"shared_ids={if shared == 0 then "0" else if shared ≤ 3 then "1..3" else ">3"}",
-               s!"valsA={if avals.length ≤ 1 then "1" else "2+"}", s!"valsB={if bvals.length ≤ 1 then "1" else "2+"}", "nt"]
+               s!"valsA={if avals.length ≤ 1 then "1" else "2+"}", s!"valsB={if bvals.length ≤ 1 then "1" else "2+"}"] ++
+              (if a.hasHoles || b.hasHoles then ["holes=1"] else ["holes=0"]) ++
+              (if a.midUnused || b.midUnused then ["midunused=1"] else []) ++ ["nt"]
   { tags, model := rel2Model mode relA relB fileA fileB ptrs, spec,
     args := [toString mode, toString relA, hexRle fileA, toString relB, hexRle fileB, hexRle ptrs] }
 
@@ -278,7 +344,7 @@ def toastrel2Gen (seed idx size : Nat) : Case :=
   let nf := fixedRels.length
   let (a, b) : Gen.Toast.Rel × Gen.Toast.Rel :=
     if idx < nf then (fixedRels.getD idx default, fixedRels.getD ((idx + 7) % nf) default)
-    else ((Gen.Toast.genRel size).run' (Prng.ofSeed seed idx), (Gen.Toast.genRel size).run' (Prng.ofSeed (seed + 1000003) idx))
+    else ((Gen.Toast.genRelH size).run' (Prng.ofSeed seed idx), (Gen.Toast.genRelH size).run' (Prng.ofSeed (seed + 1000003) idx))
   rel2Case a b (1 + idx % 2)
 
 def toastrel2 : Family :=
@@ -414,12 +480,13 @@ def toaststatsEval (args : List String) : String :=
 
 def toaststatsGen (seed idx size : Nat) : Case :=
   let rel := if idx < fixedRels.length then fixedRels.getD idx default
-             else (Gen.Toast.genRel size).run' (Prng.ofSeed (seed + 77) idx)
+             else (Gen.Toast.genRelH size).run' (Prng.ofSeed (seed + 77) idx)
   let relid := (rel.vals.head?.map (·.relid)).getD 16385
-  let file := encToastRel rel.lay
+  let file := rel.file
   let rows := rel.lay.liveRows
   let tags := [s!"vals={if rel.vals.length ≤ 1 then "1" else if rel.vals.length ≤ 5 then "2..5" else "6..50"}",
-               (if rel.lay.flatten.any (fun e => !e.live) then "dead=1" else "dead=0")] ++ (if rows.isEmpty then [] else ["nt"])
+               (if rel.lay.flatten.any (fun e => !e.live) then "dead=1" else "dead=0")] ++ holeTags rel ++
+              (if rows.isEmpty then [] else ["nt"])
   -- the iteration order of Go's `range` over the value map is a parameter of the model: any rearrangement gives the same
   -- report (Props/C11Maps); the driver takes the reversed list so that the sort of fixes/toast/05 has work to do
   { tags, model := showM showInfo (Model.Toast.getTOASTVerboseInfoWith List.reverse relid file), spec := showStats relid rows,
@@ -452,23 +519,36 @@ and differed from any stable sort from 13 chunks on.  Same arguments and handler
 def tieRows (seqs : List Nat) : List Row :=
   seqs.zipIdx.map fun (s, i) => { id := 5, seq := s, data := [UInt8.ofNat (65 + i % 26), UInt8.ofNat (48 + i % 10)] }
 
-def tieCase (rows : List Row) (twoPages : Bool) (mode : Nat) (tag : String) : Case :=
+/-- non-NORMAL pointers for a page of a tie layout: 1 = LP_UNUSED in slot 1; 2 = LP_UNUSED at both ends and two in the middle;
+3 = LP_DEAD without / with storage (a stale version of the chunk behind it) in turn -/
+def tieHoles (hm : Nat) (pg : List Entry) : Holes :=
+  (List.range (pg.length + 1)).map fun i =>
+    match hm with
+    | 1 => if i == 1 then [Hole.unused] else []
+    | 2 => if i == 0 || i == pg.length then [Hole.unused] else if i == pg.length / 2 then [Hole.unused, Hole.unused] else []
+    | 3 => if i % 3 == 1 then [Hole.dead]
+           else if i % 3 == 2 && i < pg.length then
+             [Hole.deadStored { (pg.getD i default) with row := { (pg.getD i default).row with data := [0x21, 0x21, 0x21] } }]
+           else []
+    | _ => []
+
+def tieCase (rows : List Row) (twoPages : Bool) (mode : Nat) (tag : String) (hm : Nat := 0) : Case :=
   let es : List Entry := rows.map fun r => ({ row := r } : Entry)
   let other : Entry := { row := { id := 6, seq := 0, data := [0xEE] } }
   let lay : Layout := if twoPages then [es.take (es.length / 2) ++ [other], es.drop (es.length / 2)] else [other :: es]
   let total := (rows.map (·.data.length)).sum
   let ptr : ExtPtr := ⟨total + 4, total, 0, 5, 16385⟩
-  let file := encToastRel lay
+  let file := encToastRelH lay (lay.map (tieHoles hm))
   let ptrs := encExtPtr ptr
   let distinct := (rows.map (·.seq)).eraseDups.length == rows.length
   -- with distinct sequence numbers the value is the concatenation in sequence order
   let spec := if distinct then
       "s" ++ hexOf ((rows.mergeSort fun a b => a.seq ≤ b.seq).flatMap (·.data))
     else "-"
-  { tags := [tag, s!"mode={mode}", (if rows.length ≤ 12 then "n<=12" else "n>=13"), (if distinct then "ties=0" else "ties=1"), "nt"],
+  { tags := [tag, s!"mode={mode}", s!"holes={hm}", (if rows.length ≤ 12 then "n<=12" else "n>=13"), (if distinct then "ties=0" else "ties=1"), "nt"],
     model := relModel mode 16385 file ptrs, spec, args := [toString mode, "16385", hexRle file, hexRle ptrs] }
 
-def fixedTies : List (List Nat × Bool) :=
+def fixedTies0 : List (List Nat × Bool) :=
   [ -- REVIEW C2: 13 chunks, seq = i/2, physical order reversed
     (((List.range 13).map (· / 2)).reverse, false),
     ((List.range 13).map (· / 2), false),
@@ -483,10 +563,18 @@ def fixedTies : List (List Nat × Bool) :=
     (((List.range 12).map (· / 2)).reverse, false),
     ((List.range 15).reverse, false) ]
 
+/-- (sequence numbers, two pages, hole pattern): the dense cases, then cases on pages with non-NORMAL pointers -/
+def fixedTies : List (List Nat × Bool × Nat) :=
+  (fixedTies0.map fun (s, t) => (s, t, 0)) ++
+  [ (((List.range 13).map (· / 2)).reverse, false, 1), (((List.range 14).map (· / 2)).reverse, true, 1),
+    ((List.range 13).map (· / 2), false, 2), (((List.range 20).map (· / 3)).reverse, true, 2),
+    (((List.range 16).map (· / 2)).reverse, false, 3), ((List.range 15).reverse, true, 3),
+    ([0, 1, 2], false, 1), ([2, 1, 0], false, 2) ]
+
 def toasttiesGen (seed idx _size : Nat) : Case :=
   if idx < fixedTies.length then
-    let (seqs, two) := fixedTies.getD idx ([], false)
-    tieCase (tieRows seqs) two (idx % 2) "fixed"
+    let (seqs, two, hm) := fixedTies.getD idx ([], false, 0)
+    tieCase (tieRows seqs) two (idx % 2) "fixed" hm
   else
     ((do
       let n ← (do match ← Gen.below 4 with
@@ -496,7 +584,8 @@ def toasttiesGen (seed idx _size : Nat) : Case :=
       let range ← Gen.oneOf [1, 2, 3, n / 2 + 1, n, 2 * n]
       let seqs ← Gen.listOf n (Gen.below range)
       let two ← Gen.bool
-      pure (tieCase (tieRows seqs) two (idx % 2) "random") : Gen Case)).run' (Prng.ofSeed seed idx)
+      let hm ← Gen.below 4
+      pure (tieCase (tieRows seqs) two (idx % 2) "random" hm) : Gen Case)).run' (Prng.ofSeed seed idx)
 
 def toastties : Family := { name := "toastties", gen := toasttiesGen, eval := toastrelEval, fixed := fixedTies.length }
 
@@ -533,7 +622,14 @@ def toastunhintedGen (seed idx size : Nat) : Case :=
   let nv := visibleStates.length
   let fixedN := nb * nv
   let mode := idx % 2
-  if idx < fixedN then
+  if fixedN ≤ idx && idx < fixedN + holeRels.length then
+    -- pages with non-NORMAL pointers, all live rows in one state
+    let rel := holeRels.getD (idx - fixedN) default
+    let st := visibleStates.getD (idx % nv) (0x0802, 700, 0)
+    let lay' : Layout := rel.lay.map fun pg => pg.map fun e => if e.live then stamp e st else e
+    let k := relCase { rel with lay := lay' } mode
+    { k with tags := [stateTag st, "kind=holes"] ++ k.tags }
+  else if idx < fixedN then
     let rel := boundaryRels.getD (idx / nv) default
     let st := visibleStates.getD (idx % nv) (0x0802, 700, 0)
     let lay' : Layout := rel.lay.map fun pg => pg.map fun e => if e.live then stamp e st else e
@@ -541,7 +637,7 @@ def toastunhintedGen (seed idx size : Nat) : Case :=
     { k with tags := [stateTag st, "kind=uniform"] ++ k.tags }
   else
     ((do
-      let rel ← Gen.Toast.genRel (min size 2)
+      let rel ← Gen.Toast.genRelH (min size 2)
       let mut pages : Array (List Entry) := #[]
       for pg in rel.lay do
         let mut cur : Array Entry := #[]
@@ -549,21 +645,21 @@ def toastunhintedGen (seed idx size : Nat) : Case :=
           let st ← if e.live then Gen.oneOf visibleStates else Gen.oneOf invisibleStates
           cur := cur.push (stamp e st)
         pages := pages.push cur.toList
-      let lay' : Layout ←
+      let (lay', holes') : Layout × List Holes ←
         match rel.vals.head? with
         | some v0 => do
           let st ← Gen.oneOf invisibleStates
           let old : Entry := stamp { row := { id := v0.id, seq := 0, data := [0xDE, 0xAD] } } st
-          pure ([old] :: pages.toList)
-        | none => pure pages.toList
-      let k := relCase { rel with lay := lay' } mode
+          pure ([old] :: pages.toList, [[Hole.unused], [Hole.dead]] :: rel.holes)
+        | none => pure (pages.toList, rel.holes)
+      let k := relCase { rel with lay := lay', holes := holes' } mode
       let fresh := lay'.flatten.any fun e => e.live && !e.infomask.testBit 8
       pure { k with tags := ["state=mixed", (if fresh then "unhinted=1" else "unhinted=0")] ++ k.tags } : Gen Case)).run'
         (Prng.ofSeed (seed + 311) idx)
 
 def toastunhinted : Family :=
   { name := "toastunhinted", gen := toastunhintedGen, eval := toastrelEval,
-    fixed := boundaryRels.length * visibleStates.length }
+    fixed := boundaryRels.length * visibleStates.length + holeRels.length }
 
 /-! ### toastmut (C10): nothing in toast.go may panic or allocate out of proportion, whatever the bytes -/
 
